@@ -24,17 +24,19 @@ func (t *zzTrie) TryUpdate(key, value []byte) error {
 	t.m[string(key)] = append([]byte(nil), value...)
 	return nil
 }
-func (t *zzTrie) TryDelete(key []byte) error                        { delete(t.m, string(key)); return nil }
-func (t *zzTrie) Commit(trie.LeafCallback) (common.Hash, error)     { return common.Hash{}, nil }
-func (t *zzTrie) Hash() common.Hash                                 { return common.Hash{} }
-func (t *zzTrie) NodeIterator(startKey []byte) trie.NodeIterator    { return nil }
-func (t *zzTrie) GetKey([]byte) []byte                              { return nil }
-func (t *zzTrie) Prove(key []byte, l uint, db youdb.Putter) error   { return nil }
+func (t *zzTrie) TryDelete(key []byte) error                      { delete(t.m, string(key)); return nil }
+func (t *zzTrie) Commit(trie.LeafCallback) (common.Hash, error)   { return common.Hash{}, nil }
+func (t *zzTrie) Hash() common.Hash                               { return common.Hash{} }
+func (t *zzTrie) NodeIterator(startKey []byte) trie.NodeIterator  { return nil }
+func (t *zzTrie) GetKey([]byte) []byte                            { return nil }
+func (t *zzTrie) Prove(key []byte, l uint, db youdb.Putter) error { return nil }
 
 type zzDB struct{}
 
-func (zzDB) OpenTrie(root common.Hash) (Trie, error)                  { return &zzTrie{m: map[string][]byte{}}, nil }
-func (zzDB) OpenStorageTrie(a, root common.Hash) (Trie, error)        { return &zzTrie{m: map[string][]byte{}}, nil }
+func (zzDB) OpenTrie(root common.Hash) (Trie, error) { return &zzTrie{m: map[string][]byte{}}, nil }
+func (zzDB) OpenStorageTrie(a, root common.Hash) (Trie, error) {
+	return &zzTrie{m: map[string][]byte{}}, nil
+}
 func (zzDB) CopyTrie(t Trie) Trie {
 	n := &zzTrie{m: map[string][]byte{}}
 	for k, v := range t.(*zzTrie).m {
@@ -104,7 +106,6 @@ func zzEncodeStub(val interface{}) ([]byte, error) {
 	panic("zzEncodeStub: unexpected type")
 }
 
-
 // zzValState builds an arbitrary two-validator state; validator 1 carries one
 // delegation from the delegator account when withDlg is chosen.
 func zzValState() (*StateDB, common.Address) {
@@ -132,11 +133,17 @@ func zzValState() (*StateDB, common.Address) {
 		zzverif.Assume(amt.Sign() > 0)
 		v1 := s.GetValidatorByMainAddr(zzValAddr(1))
 		s.UpdateDelegation(d, v1, amt)
+		if zzValTwoDlg && zzverif.Bool("withSecondDelegation") {
+			// the delegator's list then has two entries (validator 1 sorts first)
+			s.UpdateDelegation(d, s.GetValidatorByMainAddr(zzValAddr(2)), big.NewInt(7))
+		}
 	}
 	s.Finalise(false)
 	return s, d
 }
 
+// zzValTwoDlg lets zzValState give the delegator a second delegation (to validator 2).
+var zzValTwoDlg bool
 
 // ---- observers shared by C09 / C10 ----
 
@@ -182,26 +189,26 @@ func zzC09Same(x, y zzC09Obs) bool {
 	return ok
 }
 
-
 type zzC09ValObs struct {
-	present                             bool
-	role                                uint8
-	status                              uint8
-	token, stake, selfToken, selfStake  *big.Int
-	ndlg                                int
-	dlgToken, dlgStake                  *big.Int // of the harness delegator, if listed first
-	dlgListed                           bool
+	present                            bool
+	role                               uint8
+	status                             uint8
+	token, stake, selfToken, selfStake *big.Int
+	ndlg                               int
+	dlgToken, dlgStake                 *big.Int // of the harness delegator, if listed first
+	dlgListed                          bool
 }
 
 type zzC09VObs struct {
-	v          [4]zzC09ValObs
-	stats      [6][4]*big.Int
-	counts     [6][2]uint64
-	qlen       int
-	qnonce     [3]uint64
-	dBal       *big.Int
-	dCount     int
-	indexLen   int
+	v        [4]zzC09ValObs
+	stats    [6][4]*big.Int
+	counts   [6][2]uint64
+	qlen     int
+	qnonce   [3]uint64
+	dBal     *big.Int
+	dCount   int
+	dList    [3]common.Address // the delegator account's own list of validators
+	indexLen int
 }
 
 func zzC09ObserveVal(s *StateDB, d common.Address) zzC09VObs {
@@ -235,6 +242,11 @@ func zzC09ObserveVal(s *StateDB, d common.Address) zzC09VObs {
 	if obj := s.getStateObject(d); obj != nil {
 		o.dBal = new(big.Int).Set(obj.DelegationBalance())
 		o.dCount = obj.GetDelegationsCount()
+		for i, a := range obj.Delegations() {
+			if i < len(o.dList) {
+				o.dList[i] = a
+			}
+		}
 	}
 	o.indexLen = len(s.validatorIndex.List())
 	return o
@@ -264,9 +276,8 @@ func zzC09SameVal(x, y zzC09VObs) bool {
 		}
 		oks = append(oks, x.counts[i] == y.counts[i])
 	}
-	oks = append(oks, x.qlen == y.qlen, x.qnonce == y.qnonce, zzC09BigSame(x.dBal, y.dBal), x.dCount == y.dCount, x.indexLen == y.indexLen)
+	oks = append(oks, x.qlen == y.qlen, x.qnonce == y.qnonce, zzC09BigSame(x.dBal, y.dBal), x.dCount == y.dCount, x.dList == y.dList, x.indexLen == y.indexLen)
 	return zzverif.All(oks...)
 }
-
 
 var _ = types.Log{}
